@@ -71,7 +71,7 @@ def translate(ctx: Any) -> None:
 
 # ---- Coq rendering ---------------------------------------------------------------------------------
 def _c_op(o: tuple[Any, ...]) -> str:
-    return {"U": "OUnary", "T": "OTick", "C": "OClose"}.get(o[0]) or f"(OOpen {'true' if o[1] else 'false'})"
+    return {"U": "OUnary", "T": "OTick", "C": "OClose", "X": "OCancel"}.get(o[0]) or f"(OOpen {'true' if o[1] else 'false'})"
 
 
 def _c_spec(s: tuple[Any, ...]) -> str:
@@ -80,7 +80,15 @@ def _c_spec(s: tuple[Any, ...]) -> str:
     if s[0] == "C":
         return "SC"
     _, key, ok, ops, ra = s
-    return f"(SB {key} {'true' if ok else 'false'} [{'; '.join(_c_op(o) for o in ops)}] [{'; '.join(str(x) for x in ra)}])"
+    return f"(SB {key} {'true' if ok else 'false'} [{'; '.join(_c_op(o) for o in ops)}] [{'; '.join(_c_raise(x) for x in ra)}])"
+
+
+XCLS = {"V": "XPlain", "T": "XPlain", "O": "XOs", "R": "XRpc", "A": "XArrow"}   # see harness.c32_sched.make_exc
+
+
+def _c_raise(e: Any) -> str:
+    i, c = (e, "V") if isinstance(e, int) else e
+    return f"({i}, {XCLS[c]})"
 
 
 def _c_item(x: tuple[Any, ...]) -> str:
@@ -172,7 +180,7 @@ def trace_agrees(model: Any, impl: list[tuple[list[list[int]], list[bool]]]) -> 
 
 
 # ---- generators ------------------------------------------------------------------------------------
-U, T, C = ("U",), ("T",), ("C",)
+U, T, C, X = ("U",), ("T",), ("C",), ("X",)
 
 
 def O(m: bool) -> tuple[Any, ...]:  # noqa: E743,N802
@@ -188,6 +196,17 @@ SCRIPTS: list[tuple[list[Any], list[int]]] = [
     ([O(True), T], [2, 3]), ([O(False), T, C], [2, 3]), ([O(True), T, T], [4, 5]), ([O(True), T], list(range(2, 12))), ([U], list(range(12))),
     ([O(True), C, O(True), T], [2]), ([O(False), C, O(False)], [3]), ([O(True), C, O(True), T, C], []), ([U, O(True), T, C, U], []),
     ([O(True), T, C, U], [6]), ([U, T], []), ([O(True), U], []), ([], []),
+    # streams ended with cancel(): the server's on_cancel hook logs twice into the drain
+    ([O(False), T, X], []), ([O(True), X], []), ([O(False), T, X, U], []), ([O(False), X, O(True), T, C], []), ([X], []),
+]
+# positions of the callback invocations in the scripts above: open = 0,1; first tick = 2,3; then close-drain / cancel-drain
+CLASSES = ["V", "T", "O", "R", "A"]
+CLASS_SCRIPTS: list[tuple[list[Any], list[int]]] = [
+    # (ops, invocation numbers at which the callback raises; the class is drawn per position)
+    ([O(False), T, X], [4]), ([O(False), T, X], [5]), ([O(False), T, X, U], [4]), ([O(True), X], [2]), ([O(True), X], [3]),
+    ([O(False), T, X], [2, 4]), ([O(False), T, X], [3, 4]), ([O(True), T, X], [2, 3, 4]), ([O(False), T, X], [4, 5]),
+    ([O(True), T], [2, 3]), ([O(False), T, C], [2, 3]), ([O(False), T, C, U], [2, 3]), ([O(True), T, T], [3]), ([O(True), T, T], [2]),
+    ([U], [0]), ([U, U], [1]), ([U, U], [2]), ([O(True), T], [0]), ([O(True), C, O(True), T], [2]), ([O(False), T, T, X], [4, 6]),
 ]
 
 
@@ -195,8 +214,13 @@ def gen_threads(rng: Any, nb: int) -> list[tuple[Any, ...]]:
     specs: list[tuple[Any, ...]] = []
     two_keys = rng.random() < 0.35
     for _ in range(nb):
-        ops, ra = rng.choice(SCRIPTS)
-        specs.append(("B", rng.randrange(2) if two_keys else 0, rng.random() > 0.06, list(ops), list(ra)))
+        if rng.random() < 0.45:
+            ops, pos = rng.choice(CLASS_SCRIPTS)
+            ra: list[Any] = [(i, rng.choice(CLASSES)) for i in pos]
+        else:
+            ops, pos = rng.choice(SCRIPTS)
+            ra = [(i, rng.choice(["V", "V", "T"])) for i in pos]
+        specs.append(("B", rng.randrange(2) if two_keys else 0, rng.random() > 0.06, list(ops), ra))
     if rng.random() < 0.7:
         specs.append(("R",))
     if rng.random() < 0.5:
@@ -271,6 +295,19 @@ def targeted() -> list[tuple[str, int, int, list[Any], list[Any]]]:
         ("always raising callback on a stream", [O(True), T, T], list(range(2, 12))),
     ]:
         out.append((name, 2, 3, [("B", 0, True, ops, ra), ("B", 0, True, [U], [])], t(0, len(ops) + 9) + t(1, 10)))
+    # cancel(): every drain position x every exception class, then a second borrower
+    for cls in CLASSES:
+        for pos in ([4], [5], [2, 4]):
+            out.append((f"cancel after a tick, on_log raises {cls} at {pos}", 2, 3,
+                        [("B", 0, True, [O(False), T, X], [(i, cls if i >= 4 else "V") for i in pos]), ("B", 0, True, [U], [])], t(0, 13) + t(1, 10)))
+        out.append((f"cancel before the first tick, on_log raises {cls}", 2, 3, [("B", 0, True, [O(True), X], [(2, cls)]), ("B", 0, True, [U], [])], t(0, 12) + t(1, 10)))
+        out.append((f"close-drain after an interrupted tick, on_log raises {cls}", 2, 3, [("B", 0, True, [O(True), T], [(2, "V"), (3, cls)]), ("B", 0, True, [U], [])], t(0, 12) + t(1, 10)))
+        out.append((f"tick interrupted by {cls}", 2, 3, [("B", 0, True, [O(True), T], [(2, cls)]), ("B", 0, True, [U], [])], t(0, 12) + t(1, 10)))
+        out.append((f"tick interrupted by {cls} twice (tick, then the close it triggers)", 2, 3, [("B", 0, True, [O(False), T], [(2, cls), (3, cls)]), ("B", 0, True, [U], [])], t(0, 12) + t(1, 10)))
+        out.append((f"unary interrupted by {cls}", 2, 3, [("B", 0, True, [U], [(1, cls)]), ("B", 0, True, [U], [])], t(0, 10) + t(1, 10)))
+        out.append((f"stream init interrupted by {cls}", 2, 3, [("B", 0, True, [O(True), T], [(1, cls)]), ("B", 0, True, [U], [])], t(0, 11) + t(1, 10)))
+    out.append(("undisturbed cancel, worker reused", 2, 3, [("B", 0, True, [O(False), T, X], []), ("B", 0, True, [U], [])], t(0, 13) + t(1, 10)))
+    out.append(("cancel on a dead worker", 2, 3, [("B", 0, True, [O(False), T, X], []), ("B", 0, True, [U], [])], t(0, 6) + [("kill", 0)] + t(0, 7) + t(1, 12)))
     # process death: idle worker dies, worker dies in use, worker dies between poll and lock
     out.append(("idle worker dies before reuse", 2, 3, [("B", 0, True, [U], []), ("B", 0, True, [U], [])], t(0, 9) + [("kill", 0)] + t(1, 12)))
     out.append(("worker dies in use", 2, 3, [("B", 0, True, [U, U], []), ("B", 0, True, [U], [])], t(0, 5) + [("kill", 0)] + t(0, 6) + t(1, 10)))
@@ -290,9 +327,9 @@ def targeted() -> list[tuple[str, int, int, list[Any], list[Any]]]:
 
 
 # ---- real subprocess workers -----------------------------------------------------------------------
-def run_real(ops: list[Any], raise_at: list[int], max_idle: int) -> dict[str, Any]:
+def run_real(ops: list[Any], raise_at: list[Any], max_idle: int) -> dict[str, Any]:
     """Borrower A runs the script on a REAL subprocess worker, then borrower B makes one unary call."""
-    from harness.c32_sched import Boom, ScriptError
+    from harness.c32_sched import ScriptError, make_exc, raise_dict
     from harness.c32_worker import C32Service
     from vgi_rpc.pool import WorkerPool
     from vgi_rpc.rpc._transport import StderrMode
@@ -301,13 +338,13 @@ def run_real(ops: list[Any], raise_at: list[int], max_idle: int) -> dict[str, An
     cmd = [sys.executable, "-m", "harness.c32_worker"]
     out: dict[str, Any] = {"a": [], "b": None}
     calls = [0]
-    rs = set(raise_at)
+    rs = raise_dict(raise_at)
 
     def cb(m: Any) -> None:
         n = calls[0]
         calls[0] += 1
         if n in rs:
-            raise Boom(str(n))
+            raise make_exc(rs[n], n)
 
     pids: list[int] = []
     pool = WorkerPool(max_idle=max_idle, idle_timeout=60.0, stderr=StderrMode.DEVNULL)
@@ -347,7 +384,8 @@ def run_real(ops: list[Any], raise_at: list[int], max_idle: int) -> dict[str, An
                         if sess is None:
                             raise ScriptError
                         s, sess = sess, None
-                        s.close()
+                        s.cancel() if o[0] == "X" else s.close()
+                        out["a"].append((o[0], True))
         except BaseException as e:  # noqa: BLE001
             out["a"].append(("exc", type(e).__name__))
         out["idle_after_a"] = pool.idle_count
@@ -469,12 +507,16 @@ def run(ctx: Any) -> None:
         )
 
     # ---- real subprocess workers: the cleanliness half ------------------------------------------
-    real_scripts: list[tuple[list[Any], list[int]]] = [
-        ([U], []), ([U], [0]), ([U], [1]), ([O(True), T, C], []), ([O(False), T], []), ([O(True), T], [2, 3]),
-        ([O(True), C, O(True), T], [2]), ([O(True), T], [0]),
+    real_scripts: list[tuple[list[Any], list[Any]]] = [
+        ([U], []), ([U], [0]), ([O(True), T, C], []), ([O(False), T], []), ([O(True), T], [2, 3]),
+        ([O(True), C, O(True), T], [2]), ([O(False), T, X], []),
+        # stream ended with cancel(), on_log raising in the cancel drain: one run per exception class
+        ([O(False), T, X], [(4, "V")]), ([O(False), T, X], [(4, "T")]), ([O(False), T, X], [(4, "O")]), ([O(False), T, X], [(4, "R")]), ([O(False), T, X], [(5, "A")]),
+        ([O(True), X], [(2, "R")]), ([O(True), T], [2, (3, "O")]),
     ]
     if not quick:
-        real_scripts += [([U, U], [3]), ([O(True), T], [2]), ([O(True), T], [3]), ([O(False), T, C], [2, 3]), ([O(True), T, T], list(range(2, 12))), ([O(False), C, O(False)], [3])]
+        real_scripts += [([U], [1]), ([O(True), T], [0]), ([U, U], [3]), ([O(True), T], [2]), ([O(True), T], [3]), ([O(False), T, C], [2, 3]), ([O(True), T, T], list(range(2, 12))), ([O(False), C, O(False)], [3])]
+        real_scripts += [([O(False), T, X], [(p, c)]) for p in (4, 5) for c in CLASSES] + [([O(True), T], [2, (3, c)]) for c in CLASSES] + [([U], [(0, c)]) for c in CLASSES] + [([O(True), T], [(2, c)]) for c in CLASSES]
     real_cases: list[tuple[str, str]] = []
     real_impl: list[Any] = []
     from concurrent.futures import ThreadPoolExecutor
@@ -493,7 +535,12 @@ def run(ctx: Any) -> None:
             ctx.violation("foreign-response-read", f"second borrower's echo(777) returned {b[2]!r}", replay)
         if r["reused"] and not b_ok:
             last = next((x for x in reversed(r["a"]) if x[0] == "exc"), None)
-            cause = "unary-callback-raise" if all(o[0] == "U" for o in ops) else ("second-stream-init-callback-raise" if sum(1 for o in ops if o[0] == "O") > 1 else "stream-close-callback-raise")
+            cause = (
+                "unary-callback-raise" if all(o[0] == "U" for o in ops)
+                else "cancel-drain-callback-raise" if any(o[0] == "X" for o in ops)
+                else "second-stream-init-callback-raise" if sum(1 for o in ops if o[0] == "O") > 1
+                else "stream-close-callback-raise"
+            )
             ctx.violation(f"dirty-reuse-after-{cause}", f"real subprocess worker reused after {last}; next borrower's call failed: {b}", replay)
         if r["idle_end"] > mi:
             ctx.violation("idle-exceeds-max-idle", f"idle_count {r['idle_end']} > {mi}", replay)
@@ -516,5 +563,6 @@ def run(ctx: Any) -> None:
         "a fake worker (real RpcServer thread over in-memory pipes behind the SubprocessTransport interface) stands for a subprocess in the schedule exploration; real subprocesses are used for sequential scenarios",
         "closing a transport nobody else can reach (evicted / expired / collected / discarded) commutes with the steps of the other threads and is merged into the step that removed it from the pool",
         "the reaper may run at any time (Event.wait timeout not tied to the logical clock) and join(timeout=5) may give up: both over-approximate the real timing",
-        "borrower scripts: ops U/O/T/C guarded by the script's own state; an exception leaves the with-blocks (managed sessions are closed on the way out)",
+        "borrower scripts: ops U/O/T/C/X (unary, open stream, tick, close, cancel) guarded by the script's own state; an exception leaves the with-blocks (managed sessions are closed on the way out)",
+        "on_log exception classes: ValueError/RuntimeError (caught nowhere in the client), plain OSError, RpcError, pa.ArrowInvalid; a callback raising StopIteration or a BaseException (KeyboardInterrupt) is not generated",
     ]
